@@ -1485,4 +1485,71 @@ theorem regRun_spec (mf : Nat) (hist : List Round) : ∀ reg, RegInv reg → reg
     · have := s5 id hid
       exact ⟨this.1, Nat.le_trans this.2.1 t4⟩
     · exact t5 a ha id hid
+/-! ## one probe of a round (C19) -/
+
+theorem forTtl_nil_of_not_mem (t : Nat) (tags : List (Nat × Outcome)) (h : t ∉ tags.map (·.1)) :
+    forTtl t tags = [] := by
+  induction tags with
+  | nil => rfl
+  | cons x tags ih =>
+    simp only [List.map_cons, List.mem_cons, not_or] at h
+    rw [forTtl_cons, if_neg (fun hx => h.1 hx.symm)]
+    exact ih h.2
+
+theorem tagSlots_split (a : List Slot) (s : Slot) (b : List Slot) : ∀ p0,
+    ∃ X, X.map (·.1) = ttls a ∧
+      tagSlots p0 (a ++ s :: b) = X ++ ((tagOf (p0 ++ a) s b).toList ++ tagSlots (p0 ++ a ++ [s]) b) := by
+  induction a with
+  | nil => intro p0; exact ⟨[], rfl, by simp [tagSlots]⟩
+  | cons x a ih =>
+    intro p0
+    obtain ⟨X, h1, h2⟩ := ih (p0 ++ [x])
+    refine ⟨(tagOf p0 x (a ++ s :: b)).toList ++ X, ?_, ?_⟩
+    · simp only [List.map_append, h1, ttls, List.filterMap_cons]
+      have := tagOf_ttl p0 (a ++ s :: b) x
+      cases h : tagOf p0 x (a ++ s :: b) with
+      | none => rw [h] at this; simp at this; simp [← this]
+      | some y => rw [h] at this; simp at this; simp [← this]
+    · simp only [List.cons_append, tagSlots, h2, List.append_assoc, List.singleton_append, List.nil_append]
+
+/-- on an ascending round, the hop of a probing slot receives exactly that slot's outcome -/
+theorem roundOutcomes_single (r : Round) (pre post : List Slot) (s : Slot) (t : Nat) (o : Outcome)
+    (hsplit : r.probes = pre ++ s :: post) (hasc : (ttls r.probes).Pairwise (· < ·))
+    (htag : tagOf pre s post = some (t, o)) : roundOutcomes t r = [o] := by
+  have hst : slotTtl s = some t := by
+    have := tagOf_ttl pre post s; rw [htag] at this; simpa using this.symm
+  have hsp : ttls r.probes = ttls pre ++ t :: ttls post := by
+    rw [hsplit]; simp [ttls, List.filterMap_append, List.filterMap_cons, hst]
+  rw [hsp, List.pairwise_append, List.pairwise_cons] at hasc
+  obtain ⟨_, ⟨hpost, _⟩, hpre⟩ := hasc
+  obtain ⟨X, hX, hsplit2⟩ := tagSlots_split pre s post []
+  unfold roundOutcomes
+  rw [hsplit, hsplit2, forTtl_append, forTtl_append]
+  simp only [List.nil_append, htag, Option.toList]
+  rw [forTtl_nil_of_not_mem t X (by rw [hX]; intro hm; have := hpre t hm t (by simp); omega)]
+  rw [forTtl_nil_of_not_mem t (tagSlots (pre ++ [s]) post)
+    (by rw [tagSlots_ttls]; intro hm; have := hpost t hm; omega)]
+  simp [forTtl_cons, forTtl]
+
+/-- the effect of a well-formed round on the hop of one of its probing slots -/
+theorem hop_after_round (fs : FlowState F) (r : Round) (hlen : fs.hops.length = 254) (hwf : RoundWF r)
+    (pre post : List Slot) (s : Slot) (t : Nat) (o : Outcome)
+    (hsplit : r.probes = pre ++ s :: post) (htag : tagOf pre s post = some (t, o)) :
+    ∃ fs' hop, fs.applyRound r = .ok fs' ∧ fs.hops[t - 1]? = some hop ∧
+      fs'.hops[t - 1]? = some (hopStep fs.maxSamples hop o) := by
+  have hst : slotTtl s = some t := by
+    have := tagOf_ttl pre post s; rw [htag] at this; simpa using this.symm
+  have hb := hwf.1 t (mem_ttls (l := r.probes) (by simp [hsplit]) hst)
+  have hlt : t - 1 < fs.hops.length := by omega
+  have hge : ∀ x ∈ tagSlots [] r.probes, 1 ≤ x.1 := by
+    intro x hx
+    have : x.1 ∈ ttls r.probes := by rw [← tagSlots_ttls r.probes []]; exact List.mem_map_of_mem hx
+    exact (hwf.1 _ this).1
+  refine ⟨_, fs.hops[t - 1], applyRound_ok fs r hlen hwf, List.getElem?_eq_getElem hlt, ?_⟩
+  have := foldTags_hop (F := F) (tagSlots [] r.probes) hge (t - 1) (fs.begin r)
+  rw [this]
+  have h1 : t - 1 + 1 = t := by omega
+  have h2 := roundOutcomes_single r pre post s t o hsplit hwf.2.1 htag
+  unfold roundOutcomes at h2
+  simp [h1, h2, FlowState.begin, List.getElem?_eq_getElem hlt]
 end TV.Agg
